@@ -333,6 +333,40 @@ func c02Catalogue() []aEdit {
 	})
 	add("drop-check", []string{"1:dropCheck n2"}, func(ts []aTable) []aTable { i := tIdx(ts, 1); ts[i].Checks = ts[i].Checks[:1]; return ts })
 	add("modify-check", []string{"1:modifyCheck n1"}, func(ts []aTable) []aTable { i := tIdx(ts, 1); ts[i].Checks[0].Expr = 9; return ts })
+	// checks are paired by NAME when both sides are named: the same expression under another name is another check
+	add("rename-check-same-expression", []string{"1:addCheck n9", "1:dropCheck n1"}, func(ts []aTable) []aTable { i := tIdx(ts, 1); ts[i].Checks[0].Name = ip(9); return ts })
+	add("rename-check-and-modify-the-other", []string{"1:addCheck n9", "1:dropCheck n1", "1:modifyCheck n2"}, func(ts []aTable) []aTable {
+		i := tIdx(ts, 1)
+		ts[i].Checks[0].Name = ip(9)
+		ts[i].Checks[1].Expr = 5
+		return ts
+	})
+	add("swap-check-expressions", []string{"1:modifyCheck n1", "1:modifyCheck n2"}, func(ts []aTable) []aTable {
+		i := tIdx(ts, 1)
+		ts[i].Checks[0].Expr, ts[i].Checks[1].Expr = ts[i].Checks[1].Expr, ts[i].Checks[0].Expr
+		return ts
+	})
+	add("swap-check-names", []string{"1:modifyCheck n1", "1:modifyCheck n2"}, func(ts []aTable) []aTable {
+		i := tIdx(ts, 1)
+		ts[i].Checks[0].Name, ts[i].Checks[1].Name = ts[i].Checks[1].Name, ts[i].Checks[0].Name
+		return ts
+	})
+	add("add-check-with-the-expression-of-another", []string{"1:addCheck n9"}, func(ts []aTable) []aTable {
+		i := tIdx(ts, 1)
+		ts[i].Checks = append(ts[i].Checks, aCheck{Name: ip(9), Expr: ts[i].Checks[0].Expr})
+		return ts
+	})
+	// RESTRICT and NO ACTION are different actions in PostgreSQL and SQLite (MySQL treats them alike)
+	for _, dl := range []string{"postgres", "sqlite"} {
+		x := add("fk-on-update-no-action-to-restrict ("+dl+")", []string{"2:modifyFK 1 [3]"}, func(ts []aTable) []aTable { i := tIdx(ts, 2); ts[i].FKs[0].OnUpdate = 3; return ts })
+		x.OnlyDialect = dl
+		y := add("fk-on-delete-set-null-to-restrict-and-on-update-to-no-action ("+dl+")", []string{"2:modifyFK 2 [3 4]"}, func(ts []aTable) []aTable {
+			i := tIdx(ts, 2)
+			ts[i].FKs[1].OnUpdate, ts[i].FKs[1].OnDelete = 0, 3
+			return ts
+		})
+		y.OnlyDialect = dl
+	}
 	e := add("modify-table-comment", []string{"3:modifyAttr"}, func(ts []aTable) []aTable { i := tIdx(ts, 3); ts[i].Attrs = 1; return ts })
 	e.NoSQLite = true
 	return es
@@ -809,7 +843,7 @@ func runC02(e *Env) error {
 			usedObj := map[string]bool{}
 			for tries := 0; len(descs) < n && tries < 30; tries++ {
 				ed := cat[r.Intn(len(cat))]
-				if ed.NoSQLite && d == "sqlite" || ed.BaseDefault != 0 || ed.BasePartAttr != 0 {
+				if ed.NoSQLite && d == "sqlite" || ed.BaseDefault != 0 || ed.BasePartAttr != 0 || ed.OnlyDialect != "" && ed.OnlyDialect != d {
 					continue
 				}
 				objs := editTables(ed)
